@@ -137,7 +137,7 @@ func runLife(e *Env) {
 		k.DrawPlan([]string{"rd.woke", "rd.beforeRefresh", "rd.stop", "ed.woke", "ed.stop", "sess.close.pool", "sess.close.control",
 			"sess.close.events", "sess.close.refresher", "sess.close.cancel", "ctl.heartbeat", "ctl.reconnect", "ctl.reconnected", "ctl.reconnected", "ctl.close",
 			"fill.upgrade", "fill.filling", "fill.stopping", "connect.dialed", "connect.dialed", "connect.dialed", "pool.handleError", "pool.close",
-			"close.unlocked", "close.beforeCancel", "exec.afterWrite", "rd.woke", "rd.stop"}, 4, 6)
+			"close.unlocked", "close.beforeCancel", "exec.afterWrite", "rd.woke", "rd.stop", "exec.beforeWrite", "exec.beforeWrite"}, 4, 6)
 	}
 
 	var mu sync.Mutex
